@@ -295,7 +295,7 @@ def threads_and_fork(ctx):
                                                   F.coq_forest(fo), mcgen.coq_recs(res["recs"][:nchild]))
         exits_ok = all(r[1] == 1 and r[3] == k - 1 - i for i, r in enumerate(res["recs"][nchild:])) and \
             len(res["recs"]) == nchild + k
-        r = coq.run_cases(ctx, "c02_fork%d" % it, mcgen.PRE, "Definition c := %s.\nDefinition chk := %s.\n" % (term, chk),
+        r = coq.run_cases(ctx, "c02_fork%d" % it, mcgen.PRE, "Definition c : case4 := %s.\nDefinition chk := %s.\n" % (term, chk),
                           [("agree", "agree4 c"), ("ok", "chk")])
         ctx.case(key=("fork", repr(cfg), tuple(evs)), tags=["fork:open=%d" % k], size=len(evs))
         if r is None:
@@ -308,6 +308,55 @@ def threads_and_fork(ctx):
                           {"mode": "fork", "cfg": cfg, "events": evs, "impl_states": res["states"],
                            "impl_records": res["recs"]}, False)
 
+    # forked child under filters (any switch-free option set, both shapes): the parent's history is cut at a random
+    # point, the child continues it.  Judged: a child never writes the ENTRY of a call entered before the fork
+    # (atfork_child_handler marks every inherited frame WRITTEN), plus the model correspondence.
+    from . import c05 as _c05
+    ff = []
+    for it in range(ctx.n(16, 160)):
+        cfg = _c05.gen_cfg(rng, rng.choice(["cyg", "cyg", "pg"]))
+        for t in cfg["trig"].values():
+            t.pop("trace_on", None)
+            t.pop("trace_off", None)
+        if it % 2 == 0:
+            # unrecorded frames BELOW recorded ones at the fork: an opt-in filter (or notrace / size) on an inner function
+            cfg["trig"].setdefault(rng.choice([1, 2, 3]), {})["filter"] = True
+            cfg.pop("max_stack", None)
+            cfg.pop("threshold", None)
+        fo = F.assign_times(rng, F.gen_shape(rng, 4 if it % 2 == 0 else 6, rng.choice([8, 14, 20]), 6), t0=2000, durs=_c05.DURS)
+        full = F.flatten(fo)
+        # cut inside nested calls (after an Enter at nesting depth >= 2) most of the time
+        deep, d = [], 0
+        for i, e in enumerate(full):
+            d += 1 if e[0] == "E" else -1
+            if e[0] == "E" and d >= 3 and i + 1 < len(full):
+                deep.append(i + 1)
+        cut = rng.choice(deep) if deep and rng.random() < 0.8 else rng.randrange(1, len(full))
+        evs = full[:cut] + [("F",)] + full[cut:]
+        tmin = full[cut][2]
+        res = mcgen.run_case(h, cfg, evs)
+        ff.append((cfg, evs, res, tmin))
+        ctx.case(key=("fork-filtered", repr(cfg), tuple(evs)), tags=["fork-filtered", "shape:" + cfg["shape"]], size=len(evs))
+    if ff:
+        defs = "Definition cs : list case4 := [\n%s\n].\n" % ";\n".join(mcgen.case_term(c, e, r) for c, e, r, _ in ff)
+        defs += "Definition chks : list bool := [\n%s\n].\n" % ";\n".join(
+            "forallb (fun r : seen5 => let '(t, ty, _, _, _) := r in (ty =? UFTRACE_EXIT) || (%d <=? t)) (%s : list seen5)"
+            % (tmin, mcgen.coq_recs(r["recs"])) for _, _, r, tmin in ff)
+        rr = coq.run_cases(ctx, "c02_ffork", mcgen.PRE, defs,
+                           [("agree", "bad_indices agree4 cs 0"), ("ok", "bad_indices (fun b : bool => b) chks 0")])
+        if rr is not None:
+            bad_ok = coq.parse_nat_list(rr["ok"])
+            bad_ag = coq.parse_nat_list(rr["agree"])
+            for i in bad_ok[:2]:
+                cfg, evs, res, _ = ff[i]
+                ctx.violation("C02: a forked child wrote the ENTRY of a call that was entered before the fork (it belongs to "
+                              "the parent's stream)", {"mode": "fork-filtered", "cfg": cfg, "events": evs,
+                                                       "impl_records": res["recs"]}, True)
+            if bad_ag and not bad_ok:
+                cfg, evs, res, _ = ff[bad_ag[0]]
+                ctx.violation("model and libmcount disagree on %d fork histories under filters" % len(bad_ag),
+                              {"mode": "fork-filtered", "cfg": cfg, "events": evs, "impl_states": res["states"],
+                               "impl_records": res["recs"]}, False)
 
 # ---------------------------------------------------------------- end-to-end
 def c_program(fo_main, fo_threads):
